@@ -5,7 +5,7 @@ from common import from_replay, to_replay  # noqa: F401
 
 PID = "C05"
 COQ_MODULE = "Prop_C05"
-THEOREMS = ['C05_every_history', 'C05_every_history_partial', 'C05_hold_accounting', 'C05_guard_drop_exact', 'C05_collection_unlock_exact', "C05_every_schedule_all_released"]
+THEOREMS = ['C05_every_history', 'C05_every_history_partial', 'C05_hold_accounting', 'C05_guard_drop_exact', 'C05_collection_unlock_exact', "C05_every_schedule_all_released", "C05_every_schedule_release_by_holder"]
 CASE_MODULES = ["Pf_Hist", "Monitors", "Conc", "BMonitors"]
 CHECK_WITHOUT_PROOF = True
 TRUSTED = common.TRUSTED_COMMON
